@@ -13,6 +13,7 @@ mod grid;
 mod keys;
 mod minimise;
 mod oracle;
+mod pipeline;
 mod prng;
 mod recorder;
 mod refmodel;
